@@ -454,3 +454,20 @@ proof fn evaluated_below_limit<M: Model>(m: M, g: Gen, st: StMap<M::State>, pth:
     assert(pth[x].len() <= ss.len());
     if gh.skipped.contains(x) { assert(false); }
 }
+
+// C01: after `closure`, `unique_state_count` (= generated.len()) is the number of reachable in-boundary states
+//@props C01
+proof fn unique_state_count_exact<M: Model>(m: M, g: Gen, st: StMap<M::State>, pth: PthMap<M::State>, reach_set: Set<M::State>)
+    requires
+        gen_inv(m, g, st, pth), fp_inj_reach(m),
+        forall|s: M::State| #[trigger] reach(m, s) ==> g.contains_key(fp_of(s)) && st[fp_of(s)] == s,
+        forall|s: M::State| #[trigger] reach_set.contains(s) <==> reach(m, s),
+    ensures g.dom().len() == reach_set.len()
+{
+    assert forall|k: Fingerprint| #[trigger] g.dom().contains(k) implies exists|a: M::State| reach_set.contains(a) && #[trigger] fp_of(a) == k by {
+        generated_are_reachable(m, g, st, pth, k);
+        assert(reach_set.contains(st[k]) && fp_of(st[k]) == k);
+    }
+    assert forall|a: M::State| #[trigger] reach_set.contains(a) implies g.dom().contains(fp_of(a)) by { assert(reach(m, a)); }
+    bij_len(reach_set, g.dom());
+}
